@@ -230,14 +230,27 @@ def cases(draw):
         return {"gen": g, "n": n, "k": k, "sz_cl": sz, "seed": seed}
     if g == "fractal":
         mx = draw(st.integers(2, 5))
-        return {"gen": g, "mx_lvl": mx, "E": draw(st.sampled_from([1.5, 2.0, 3.0])), "sz_cl": draw(st.integers(1, mx)), "seed": seed}
+        return {"gen": g, "mx_lvl": mx, "E": draw(st.sampled_from([2.0, 1, 1.5, 1.0, 3.0])), "sz_cl": draw(st.integers(1, mx)), "seed": seed}
     n = draw(st.integers(2, 10))
     A = draw(gen.er_adj(n, True))
     return {"gen": g, "inv": A.sum(axis=0).astype(int), "outv": A.sum(axis=1).astype(int), "seed": seed}
 
 
+@st.composite
+def large_cases(draw):
+    """one size class up: counts beyond 10^5 (a relative tolerance on the count would show here)"""
+    g = draw(st.sampled_from(["toeplitz", "rand_dir", "toeplitz", "rand_und", "toeplitz", "ring"]))
+    seed = draw(gen.seeds())
+    n = draw(st.sampled_from([360, 400, 450]))
+    if g == "toeplitz":
+        return {"gen": g, "n": n, "k": draw(st.sampled_from([100000, 100003, 120001])), "s": draw(st.sampled_from([150.0, 200.0])), "seed": seed}
+    kmax = n * (n - 1) // 2 if g == "rand_und" else n * (n - 1)
+    return {"gen": g, "n": n, "k": draw(st.integers(kmax - 5000, kmax - 1)) if g != "rand_und" else draw(st.integers(kmax - 2000, kmax - 1)), "seed": seed}
+
+
 def units(tier):
     return [
+        Unit("large-sizes", check, strategy=large_cases, examples=(64, 400), shards=(16, 16)),
         Unit("exhaustive-N-K", check, count=lambda t: len(_nk(t)), cases=_exh, shards=(16, 32),
              space="makerandCIJ_und/_dir, makeringlatticeCIJ: every (N,K), N<=%d, x %d seeds" % ((7, 3) if tier == "quick" else (9, 8))),
         Unit("random-parameters", check, strategy=cases, examples=(6000, 320000), shards=(8, 16)),
